@@ -125,6 +125,18 @@ inline bool read_all(int fd, void *p, size_t n) { char *c = (char *)p; while (n)
 inline bool send_msg(int fd, const std::string &s) { uint32_t n = (uint32_t)s.size(); return write_all(fd, &n, 4) && write_all(fd, s.data(), n); }
 inline bool recv_msg(int fd, std::string &s) { uint32_t n; if (!read_all(fd, &n, 4)) return false; s.resize(n); return n == 0 || read_all(fd, &s[0], n); }
 
+// evaluates the case(s) of a saved text one after the other in this process; the verdict is that of the last one
+inline Verdict run_text(const RunFn &run, const std::string &text, bool *parsed = nullptr) {
+    Verdict v;
+    if (parsed) *parsed = true;
+    for (auto &part : split_cases(text)) {
+        Case c;
+        if (!Case::from_text(part, c)) { if (parsed) *parsed = false; v.ok = false; v.why = "unparsable case"; return v; }
+        CurrentScope scope(c);
+        v = run(c);
+    }
+    return v;
+}
 // call first thing in main() (not in replay mode, not under ThreadSanitizer)
 inline void zygote_start(Verdict (*run)(const Case &)) {
     if (getenv("VERIF_NO_ISOLATE")) return;
@@ -145,11 +157,8 @@ inline void zygote_start(Verdict (*run)(const Case &)) {
             pid_t ch = fork();
             if (ch == 0) {
                 close(cfd[0]); close(rq[0]); close(rs[1]);
-                Case c;
-                Case::from_text(text, c);
-                CurrentScope scope(c);
                 in_isolated_child() = true;
-                Verdict v = run(c);
+                Verdict v = run_text(run, text);
                 std::string out = verdict_to_wire(v);
                 write_all(cfd[1], out.data(), out.size());
                 _exit(0);
@@ -169,12 +178,12 @@ inline void zygote_start(Verdict (*run)(const Case &)) {
     close(rq[0]); close(rs[1]);
     zygote().req = rq[1]; zygote().resp = rs[0]; zygote().pid = pid;
 }
-inline Verdict run_isolated(const RunFn &run, const Case &c) {
+inline Verdict run_isolated(const RunFn &run, const Case &c, const std::string &predecessors = std::string()) {
     Zygote &z = zygote();
     if (z.pid <= 0) return run(c);     // no zygote (ThreadSanitizer build, or isolation switched off)
     Verdict v;
     std::string resp;
-    if (!send_msg(z.req, c.to_text()) || !recv_msg(z.resp, resp)) { z.pid = -1; return run(c); }
+    if (!send_msg(z.req, predecessors + c.to_text()) || !recv_msg(z.resp, resp)) { z.pid = -1; return run(c); }
     if (resp.compare(0, 5, "CRASH") == 0) {
         v.ok = false; v.sig = "crash";
         v.why = "the case crashed a freshly started process (" + resp.substr(6) + "): sanitizer report or abort, see the log";
@@ -197,6 +206,7 @@ inline bool run_cases(const Args &a, Evidence &ev, const std::string &name, long
     rc::detail::TestMetadata md;
     md.id = name; md.description = name;
     bool failed_once = false, failed_isolated = false;
+    std::string failed_after;   // non-empty: the failure needs these predecessor cases to run first in the same process
     long evaluated = 0;
     time_t t_failed = 0;
     const long shrink_budget_s = a.quick() ? 40 : 150;
@@ -204,7 +214,7 @@ inline bool run_cases(const Args &a, Evidence &ev, const std::string &name, long
     if (a.dump_index >= 0) params.maxSuccess = (int)a.dump_index + 1;
     auto result = rc::detail::checkTestable([&] {
         Case c = *gen;
-        CurrentScope scope(c);
+        CurrentScope scope(c, !failed_once);
         if (failed_once && time(nullptr) - t_failed > shrink_budget_s) return;   // shrinking budget used up: remaining candidates are not tried (counts as "does not fail")
         // a sample of the cases (evenly spread, about a.isolate_n per part and shard) runs in a forked child; a failing case keeps
         // being evaluated the way it failed, so that shrinking sees the same behaviour
@@ -214,13 +224,21 @@ inline bool run_cases(const Args &a, Evidence &ev, const std::string &name, long
             if (evaluated - 1 == a.dump_index) write_file(a.out, "# differential=autoinit part=" + name + "\n" + c.to_text());
             return;
         }
-        Verdict v = iso ? run_isolated(run, c) : run(c);
+        Verdict v = iso ? run_isolated(run, c, failed_once ? failed_after : std::string()) : run(c);
         if (digest_file && !failed_once) fprintf(digest_file, "%016llx %016llx\n", (unsigned long long)c.digest(), (unsigned long long)v.trace_digest);
         if (!v.ok && !iso && a.isolate && !failed_once) {
             // A case is self-contained: if it only fails after other cases have run in this process, the code under test keeps
             // process-wide state between "instances" (a function-local static, a cache). That is not a violation by this case -
             // it is reported in the evidence and the search goes on; a genuine violation reproduces in the fresh process.
             Verdict v2 = run_isolated(run, c);
+            if (v2.ok && zygote().pid > 0 && !Current::prev().empty()) {
+                // ... unless it does reproduce in a fresh process that first runs the few cases that preceded it here: instances that
+                // follow one another in one process (an interface goes away, another appears) are a legitimate history, and the
+                // reproduction is that short run of cases.
+                std::string before = Current::prev_text();
+                Verdict v3 = run_isolated(run, c, before);
+                if (!v3.ok) { v2 = v3; failed_after = before; ev.count(name + ":failed-only-after-its-predecessors(reproduced-in-a-fresh-process)"); }
+            }
             if (v2.ok) { ev.count(name + ":failed-only-with-state-of-earlier-cases(not-counted)"); v = v2; }
             else { v = v2; iso = true; }
         }
@@ -237,7 +255,7 @@ inline bool run_cases(const Args &a, Evidence &ev, const std::string &name, long
         if (!v.ok) {
             if (!failed_once) t_failed = time(nullptr);
             failed_once = true;
-            write_file(a.failing, "# " + name + ": " + v.why + "\n# sig=" + (v.sig.empty() ? "-" : v.sig) + "\n" + c.to_text());
+            write_file(a.failing, "# " + name + ": " + v.why + "\n# sig=" + (v.sig.empty() ? "-" : v.sig) + "\n" + failed_after + c.to_text());
             RC_FAIL(v.why);
         }
     }, md, params);
@@ -254,11 +272,10 @@ inline bool run_cases(const Args &a, Evidence &ev, const std::string &name, long
 inline int replay_case(const Args &a, const RunFn &run) {
     std::string t;
     if (!read_file(a.replay, t)) { fprintf(stderr, "cannot read %s\n", a.replay.c_str()); return 2; }
-    Case c;
-    if (!Case::from_text(t, c)) { fprintf(stderr, "cannot parse %s\n", a.replay.c_str()); return 2; }
-    CurrentScope scope(c);
     in_isolated_child() = !getenv("VERIF_NO_ISOLATE");
-    Verdict v = run(c);
+    bool parsed = true;
+    Verdict v = run_text(run, t, &parsed);
+    if (!parsed) { fprintf(stderr, "cannot parse %s\n", a.replay.c_str()); return 2; }
     if (!v.ok) { printf("REPLAY-FAIL sig=%s %s\n", v.sig.empty() ? "-" : v.sig.c_str(), v.why.c_str()); return 1; }
     printf("REPLAY-PASS\n");
     return 0;
